@@ -531,6 +531,13 @@ func (s *fsm13) transitionAfterACK(result ACKResult, peerRetransmit bool) receiv
 
 		return receivedFlightTransition{state: StateSending}
 	}
+	if peerRetransmit && !result.Empty && len(result.Messages) == 0 &&
+		time.Since(s.lastSent) < s.cfg.InitialRetransmitInterval/2 {
+		// The flight has just been sent. Two endpoints that each take the
+		// other's flight for a retransmission would otherwise answer each
+		// other without end and without delay.
+		return receivedFlightTransition{state: StateWaiting}
+	}
 	if result.Empty || len(result.Messages) != 0 || peerRetransmit {
 		return receivedFlightTransition{
 			state: handleRetransmitTimeout(s.retransmit, &s.retransmitInterval, s.cfg),
